@@ -17,7 +17,7 @@ import (
 
 // ---- C09: header constraints gate every form of a route (engine B over histories) ----
 
-var c09Routes = []string{"/s", "/o/?t", "/d/{x}", "/e/?{x}", "/{m: **}", "/o/?{y}"}
+var c09Routes = []string{"/s", "/o/?t", "/d/{x}", "/e/?{x}", "/{m: **}", "/o/?{y}", "/o/t"}
 var c09APIs = []string{"Get", "Routes(GET,POST)", "Routes(GET;POST)", "Any", "Post"}
 var c09HdrSets = [][]string{{}, {"X-K", "^v$"}, {"X-K", "", "Y-K", "b"}}
 var c09ReqHdrs = []map[string]string{{}, {"X-K": "v"}, {"X-K": "w"}, {"X-K": ""}, {"X-K": "v", "Y-K": "b"}, {"X-K": "w", "Y-K": "xbx"}}
